@@ -1,3 +1,4 @@
+import Cuke.Lemmas.SchedRunLevel
 import Cuke.Lemmas.SchedFin
 import Cuke.Lemmas.SchedFinRule
 import Cuke.Props.C05
@@ -446,5 +447,40 @@ example : Cuke.SchedSeq.NClean (acceptN rcfgR rlogR) = true ∧
     Cuke.SchedFin.closes rcfgR (acceptN rcfgR (rlogR.take 25)).base = some 0 ∧
     (acceptN rcfgR (rlogR.take 26)).base.expect.map (fun x => match x with | .one e => some e | _ => none) =
       [some (.ruleFinished 0 7), some (.featFinished 0)] := by decide +kernel
+
+/-! ## The run-level brackets, over whole runs (Lemmas/SchedRunLevel.lean) -/
+
+open Cuke.SchedRunLevel Cuke.SchedBr Cuke.BrL in
+/-- **Exactly one run-Started, exactly one run-Finished — counted over sent and owed events, at every moment.** In
+    every log replayed without a disagreement: before `execute` takes the panic hook neither event is sent or owed; from
+    then on exactly one run-`Started` is (sent or owed); from the exit decision on exactly one run-`Finished` is, and
+    none before it. -/
+theorem lts_run_brackets_ledger (c : SCfg) (ls : List Label) (hc : SchedOrd.Clean0 (accept c ls) = true) :
+    cnt .started (hist (accept c ls)) = (if (accept c ls).phase = .init then 0 else 1) ∧
+    cnt .finished (hist (accept c ls)) =
+      (if (accept c ls).phase = .exiting ∨ (accept c ls).phase = .exited then 1 else 0) := by
+  have h := rinv_accept c ls hc
+  unfold RInv at h
+  refine ⟨?_, ?_⟩
+  · rw [h.1]; cases hp : (accept c ls).phase <;> simp [pc]
+  · rw [h.2]; cases hp : (accept c ls).phase <;> simp [pc]
+
+open Cuke.SchedRunLevel Cuke.SchedBr Cuke.BrL in
+/-- **A complete run SENDS exactly one run-Started and exactly one run-Finished.** For every log replayed without a
+    disagreement that reached `EXIT` with nothing owed (the end-of-run check `finalChecks`), the stream that was sent
+    holds exactly one run-`Started` and exactly one run-`Finished`. -/
+theorem lts_run_started_finished_exactly_once (c : SCfg) (ls : List Label) (hc : SchedOrd.Clean0 (accept c ls) = true)
+    (hx : (accept c ls).phase = .exited) (he : expEmpty (accept c ls).expect = true) :
+    (accept c ls).out.count .started = 1 ∧ (accept c ls).out.count .finished = 1 := by
+  have h := lts_run_brackets_ledger c ls hc
+  have hee := expEvents_empty _ he
+  simp only [hist, hee, List.append_nil, hx] at h
+  simpa [cnt] using h
+
+/-- non-vacuity: the complete run `C05.rlog` -/
+example : SchedOrd.Clean0 (accept Cuke.C05.rcfg Cuke.C05.rlog) = true ∧ (accept Cuke.C05.rcfg Cuke.C05.rlog).phase = .exited ∧
+    expEmpty (accept Cuke.C05.rcfg Cuke.C05.rlog).expect = true ∧
+    (accept Cuke.C05.rcfg Cuke.C05.rlog).out.count .started = 1 := by
+  decide +kernel
 
 end Cuke.C03
